@@ -83,7 +83,9 @@ def coq_prepare():
 def coq_make(targets, timeout=1500):
     """full .vo build of the given targets (never -vos).  Returns (ok, log)."""
     coq_prepare()
-    rc, out = sh(['make', '-j', JOBS, '-k'] + list(targets), cwd=COQ, timeout=timeout)
+    # address-space cap per coqc: a runaway tactic must fail the obligation, not take the machine down
+    cmd = 'ulimit -v 24000000; exec make -j %s -k %s' % (JOBS, ' '.join(targets))
+    rc, out = sh(['bash', '-c', cmd], cwd=COQ, timeout=timeout)
     return rc == 0, out
 
 
@@ -92,10 +94,22 @@ def coq_failed_files(log):
 
 
 def theorems_of(prop):
-    """names declared in Properties/<prop>.v (Theorem / Corollary / Example)"""
+    """names declared in Properties/<prop>.v (Theorem / Corollary / Example), qualified by the enclosing `Module X.` if any"""
     txt = (COQ / 'Properties' / (prop + '.v')).read_text()
-    return re.findall(r'^\s*(?:Theorem|Corollary)\s+([A-Za-z0-9_\']+)', txt, flags=re.M), \
-        re.findall(r'^\s*Example\s+([A-Za-z0-9_\']+)', txt, flags=re.M)
+    thms, exs, mods = [], [], []
+    for line in txt.split('\n'):
+        m = re.match(r'^\s*Module\s+([A-Za-z0-9_]+)\s*\.', line)
+        if m:
+            mods.append(m.group(1))
+            continue
+        m = re.match(r'^\s*End\s+([A-Za-z0-9_]+)\s*\.', line)
+        if m and mods and mods[-1] == m.group(1):
+            mods.pop()
+            continue
+        m = re.match(r'^\s*(Theorem|Corollary|Example)\s+([A-Za-z0-9_\']+)', line)
+        if m:
+            (exs if m.group(1) == 'Example' else thms).append('.'.join(mods + [m.group(2)]))
+    return thms, exs
 
 
 def audit_assumptions(prop):
@@ -223,7 +237,7 @@ def build_oracle(timeout=1200):
 
 
 def run_oracle(casefile, outfile, timeout=3600):
-    cmd = 'ulimit -s unlimited 2>/dev/null; %s %s > %s' % (BUILD / 'ocaml' / 'oracle', casefile, outfile)
+    cmd = 'ulimit -s unlimited 2>/dev/null; exec %s %s > %s' % (BUILD / 'ocaml' / 'oracle', casefile, outfile)
     rc, out = sh(['bash', '-c', cmd], timeout=timeout)
     return rc == 0, out
 
@@ -245,15 +259,18 @@ def run_oracle_sharded(casefile, outfile, shards=16, timeout=3600):
             continue
         cf = '%s.%d' % (casefile, i)
         pathlib.Path(cf).write_text('\n'.join(part) + '\n')
-        cmd = 'ulimit -s unlimited 2>/dev/null; %s %s > %s.%d' % (BUILD / 'ocaml' / 'oracle', cf, outfile, i)
-        procs.append((i, cf, subprocess.Popen(['bash', '-c', cmd], stdout=subprocess.PIPE, stderr=subprocess.STDOUT)))
+        cmd = 'ulimit -s unlimited 2>/dev/null; exec %s %s > %s.%d' % (BUILD / 'ocaml' / 'oracle', cf, outfile, i)
+        procs.append((i, cf, subprocess.Popen(['bash', '-c', cmd], stdout=subprocess.PIPE, stderr=subprocess.STDOUT, start_new_session=True)))
     ok, log = True, ''
     t0 = time.time()
     for i, cf, p in procs:
         try:
             o, _ = p.communicate(timeout=max(1, timeout - (time.time() - t0)))
         except subprocess.TimeoutExpired:
-            p.kill()
+            try:
+                os.killpg(p.pid, 9)
+            except OSError:
+                p.kill()
             ok = False
             log += 'oracle shard %d timed out\n' % i
             continue
